@@ -315,6 +315,12 @@ def backref_registration(run, ctx):
                     f = H.peel(nd["f"])
                     if f.get("adt", "").endswith("Expr") and f.get("variant") in ("Backref", "SubroutineCall", "BackrefExistsCondition"):
                         sites.append((sp, f["variant"], nd, list(parents)))
+                elif nd.get("k") == "Path" and nd.get("adt", "").endswith("Expr") and nd.get("variant") in ("Backref", "SubroutineCall", "BackrefExistsCondition") \
+                        and "Ctor" in str(nd.get("dk", "")) and not any(p_.get("k") == "Call" and H.peel(p_["f"]) is nd for p_ in parents[-3:]):
+                    # the constructor used as a function value: fine as the create_expr argument itself
+                    par = [p_ for p_ in parents if p_.get("k") == "MethodCall" and p_["name"] in ("parse_named_backref", "parse_numbered_backref")
+                           and any(H.peel(a_) is nd for a_ in p_.get("args") or [])]
+                    sites.append((sp, nd["variant"], nd, list(parents) + ([{"k": "Closure"}] if par else [])))
                 for ch in H.children(nd):
                     walk_with_parents(ch, parents + [nd])
         walk_with_parents(f2["body"], [])
